@@ -10,6 +10,7 @@ from ..ctx import level_of
 
 ID = "C12"
 OPS = "MIDP=XH"
+OPS_SN = "MIDP=XHSN"      # soft clip / skipped region: query-only / reference-only operations
 
 
 def setup(ctx):
@@ -18,10 +19,10 @@ def setup(ctx):
 
 def all_short_cigars():
     out = ["*"]
-    for a in OPS:
+    for a in OPS_SN:
         for n in (1, 3):
             out.append("%d%s" % (n, a))
-    for a, b in itertools.permutations(OPS, 2):
+    for a, b in itertools.permutations(OPS_SN, 2):
         out.append("2%s1%s" % (a, b))
     return out
 
@@ -38,7 +39,7 @@ def cases(rng, tier, shard, nshards):
     yield {"k": "marker-exhaustive-done"}
     while True:
         f, t = rng.choice([("A", "B"), ("A", "A"), ("B", "A"), ("A", "C")])
-        ov = "*" if rng.random() < 0.15 else G.cigar1(rng, nops=rng.randint(1, 6), ops=OPS)
+        ov = "*" if rng.random() < 0.15 else G.cigar1(rng, nops=rng.randint(1, 6), ops=OPS if rng.random() < 0.85 else OPS_SN)
         tags = [("ID", "Z", "l1")] if rng.random() < 0.3 else []
         if rng.random() < 0.3:
             tags.append(("xx", "i", str(rng.randint(0, 9))))
@@ -76,6 +77,20 @@ def run(case, ctx):
     c = rc.value
     if str(l) != lt:
         ctx.violation("complement-mutates-receiver", "%r became %r" % (lt, str(l)))
+        return
+    if any(ch in case["ov"] for ch in "SN"):
+        # S consumes the query only, N the reference only.  The statement names the exchange of
+        # insertions and deletions only; which operation S and N turn into is not specified, but
+        # the two laws are: the lengths are exchanged, and the complement of the complement is the link
+        ctx.count("complements_with_S_or_N")
+        a, b = l.overlap, c.overlap
+        if (a.length_on_reference(), a.length_on_query()) != (b.length_on_query(), b.length_on_reference()):
+            ctx.violation("complement-lengths/SN", "%s -> %s: (%d,%d) vs (%d,%d)" % (case["ov"], b, a.length_on_reference(),
+                          a.length_on_query(), b.length_on_reference(), b.length_on_query()))
+            return
+        rcc = call(ctx, "complement", c.complement)
+        if not rcc.ok or str(rcc.value) != lt:
+            ctx.violation("complement-not-involutive/SN", "%r -> %r -> %r" % (lt, str(c), str(rcc.value) if rcc.ok else rcc.cls()))
         return
     if str(c) != ct:
         ctx.violation("complement-wrong/%s" % _which(str(c), ct), "complement of %r is %r, expected %r" % (lt, str(c), ct))
